@@ -89,6 +89,7 @@ func (p *Pruner) loop() error {
 			// use smaller period when nearly synced
 			period = 8192
 		}
+		period = verifPeriod(period)
 
 		// select target
 		target := status.Base + period
@@ -203,6 +204,7 @@ func (p *Pruner) pruneTries(targetChain *chain.Chain, base, target uint32) error
 // awaitUntilPrunable waits until the target block number becomes prunable,and returns the prunable chain.
 // Before the finality hard fork, it's awaitUntilSteady. After the finality hard fork, it's awaitUntilFinalized.
 func (p *Pruner) awaitUntilPrunable(target uint32) (*chain.Chain, error) {
+	target = verifPrunableTarget(target)
 	if p.fc.FINALITY > target {
 		return p.awaitUntilSteady(target)
 	}
